@@ -18,3 +18,16 @@ def c02(run):
                              "disjoint; distinct by hash of the case"}
     run.model_check("MC_DE9IM", timeout=900)
     family_random(run, "relate", "Trace_Relate", tier_n(run, 6000, 400000))
+
+FAMILY_MODULE["valid"] = "Trace_Valid"
+
+
+@prop("C03")
+def c03(run):
+    run.assumptions += ["exact decision on lattices N<=16 and exact-similarity images up to |c|<=2^10"]
+    run.extra_cov = {"rule": "geometries built without validation on dense lattices (side 3..6, some 8..16): raw/broken rings, "
+                             "touching/nested/crossing holes, multipolygons, nested collections, each also in a second "
+                             "representation (ring start, direction, hole/member order, similarity); (Multi)LineString "
+                             "simplicity; NaN/Inf ordinates. Non-trivial = non-empty; distinct by hash of the case"}
+    family_enumerated(run, "valid", "Gen_Valid", "Trace_Valid", gen_cfg=tier_n(run, "Gen_Valid.cfg", "Gen_Valid_full.cfg"))
+    family_random(run, "valid", "Trace_Valid", tier_n(run, 12000, 600000))
